@@ -116,11 +116,32 @@ class Tr:
         (self.ints if kind == "int" else self.lists).add(name)
         (self.lists if kind == "int" else self.ints).discard(name)
 
+    def index_guards(self, st):
+        """`l[e]` raises IndexError outside -len..len-1: one guard per statement, before the statement
+        (every failure of the function is `none` and nothing has side effects, so hoisting is exact)."""
+        bound = set()
+        for n in ast.walk(st):
+            if isinstance(n, ast.ListComp):
+                for g in n.generators:
+                    bound |= {x.id for x in ast.walk(g.target) if isinstance(x, ast.Name)}
+        guards = []
+        for n in ast.walk(st):
+            if isinstance(n, ast.Subscript):
+                if {x.id for x in ast.walk(n) if isinstance(x, ast.Name)} & bound:
+                    raise Untranslatable("subscript depends on a comprehension variable")
+                g = "Py.inRange %s %s" % (self.list_expr(n.value), self.int_expr(n.slice))
+                if g not in guards:
+                    guards.append(g)
+        return guards
+
     def stmts(self, body):
         out = []
         for k, st in enumerate(body):
             if isinstance(st, ast.Expr) and isinstance(st.value, ast.Constant) and isinstance(st.value.value, str):
                 continue  # docstring
+            guards = self.index_guards(st)
+            if guards:
+                out.append("  if !(%s) then none else" % " && ".join(guards))
             if isinstance(st, ast.Assert):
                 out.append("  if !%s then none else" % self.bool_expr(st.test))
             elif isinstance(st, ast.Assign) and len(st.targets) == 1:
@@ -190,7 +211,7 @@ def gen_system(rng):
     nv = rng.randint(1, 5)
     nr = rng.randint(1, 8)
     shape = rng.choice(["plain", "plain", "sparse", "dense", "equalities", "parity", "dark", "dark", "unbounded",
-                        "zero-rows", "duplicates", "boxed", "var0-exact", "nonunit-single"])
+                        "zero-rows", "duplicates", "boxed", "var0-exact", "nonunit-single", "bounds-last", "grey"])
     K = rng.choice([1, 2, 3, 4, 4])
     rows = []
     if shape == "plain":
@@ -247,6 +268,27 @@ def gen_system(rng):
         rng.shuffle(rows)
         rows = rows[:6]
         while len(rows) < 8 and rng.random() < 0.8:
+            rows.append(rand_row(rng, nv, K))
+    elif shape == "bounds-last":         # a few constraints over several variables first, then bounds x_i >= b / x_i <= b
+        nv = max(nv, 2)
+        for _ in range(rng.randint(1, 3)):
+            rows.append(rand_row(rng, nv, K, 0.2))
+        for i in rng.sample(range(nv), rng.randint(1, nv)):
+            e = [0] * nv
+            e[i] = rng.choice([1, 1, -1])
+            rows.append(e + [rng.randint(-4, 4)])
+            if rng.random() < 0.3:
+                rows.append([-c for c in e] + [rng.randint(-4, 4)])
+        rows = rows[:8]
+        return [list(r) for r in rows], shape          # the order is the point: never shuffled
+    elif shape == "grey":                # k <= a.x <= k+1 with non-unit a: real shadow true, dark shadow false (grey region)
+        nv = max(nv, 2)
+        a = [rng.choice([-5, -4, -3, -2, 2, 3, 4, 5]) if rng.random() < 0.8 else 0 for _ in range(nv)]
+        if sum(1 for c in a if c) < 2:
+            a[0], a[1] = 3, 5
+        k = rng.randint(-3, 3)
+        rows = [a + [-k], [-c for c in a] + [k + rng.choice([0, 1, 1, 2])]]
+        while len(rows) < nr and rng.random() < 0.6:
             rows.append(rand_row(rng, nv, K))
     elif shape == "var0-exact":          # variable 0 has unit coefficients (omega.py treats index 0 as "no exact variable")
         nv = max(nv, 2)
@@ -598,6 +640,20 @@ def build_ineqs(mod, rows, enc, strict=None):
     return ineqs
 
 
+def choose_enc(rng, rows):
+    """per row: True = GreaterEq(jars(c), -c0), False = LessEq(jars(-c), c0).  A row +-x_i + c0 >= 0 is
+    mostly written so that the coefficient is 1 (`x >= b` / `x <= b`: a bound asserted directly on
+    the variable, which is non-basic, not on a slack variable)."""
+    enc = []
+    for r in rows:
+        nz = [c for c in r[:-1] if c != 0]
+        if len(nz) == 1 and abs(nz[0]) == 1 and rng.random() < 0.75:
+            enc.append(nz[0] == 1)
+        else:
+            enc.append(rng.random() < 0.5)
+    return enc
+
+
 def find_atom_row(s, mod, is_upper, var, value):
     """index of an input inequality that asserted `var <= value` / `var >= value`."""
     for k, a in enumerate(s.atom):
@@ -633,11 +689,18 @@ def farkas_from_explanation(s, mod, nrows):
 
 
 def run_simplex(mod, rows, enc):
-    """(verdict, payload): ('sat', {var: Fraction}), ('unsat', multipliers or None), ('raise', name), ('timeout',)"""
+    """(verdict, payload): ('sat', {var: Fraction}), ('unsat', multipliers or None), ('raise', name), ('timeout',).
+    The verdict comes from the public behaviour (handle_assertion returns / raises UNSATException,
+    AssertUpperException, AssertLowerException).  The Farkas multipliers are read from internals
+    (wrong_var, explaination, equality, atom, bound); if that fails for any reason the certificate
+    is simply missing (None) and the verdict is judged by Z3 instead."""
     s = mod.Simplex()
     last = {}
     try:
         s.add_ineqs(*build_ineqs(mod, rows, enc))
+    except Exception as e:  # noqa
+        return ("raise", type(e).__name__), s
+    try:   # best effort: remember the last asserted bound (for the certificate of a direct bound conflict)
         orig_up, orig_lo = s.assert_upper, s.assert_lower
 
         def up(x, c):
@@ -648,6 +711,9 @@ def run_simplex(mod, rows, enc):
             last["a"] = (False, x, c)
             return orig_lo(x, c)
         s.assert_upper, s.assert_lower = up, lo
+    except Exception:  # noqa
+        pass
+    try:
         with time_limit(20):
             s.handle_assertion()
     except Timeout:
@@ -655,19 +721,22 @@ def run_simplex(mod, rows, enc):
     except mod.UNSATException:
         try:
             return ("unsat", farkas_from_explanation(s, mod, len(rows))), s
-        except Exception as e:  # noqa
-            return ("unsat", None, "explanation raised %s" % type(e).__name__), s
+        except Exception:  # noqa
+            return ("unsat", None), s
     except (mod.AssertUpperException, mod.AssertLowerException):
-        is_up, x, c = last["a"]
-        other = s.bound[x][0] if is_up else s.bound[x][1]
-        k1 = find_atom_row(s, mod, is_up, x, c)
-        k2 = find_atom_row(s, mod, not is_up, x, other)
-        if k1 is None or k2 is None:
-            return ("unsat", None, "bound conflict without atoms"), s
-        lam = [0] * len(rows)
-        lam[k1] += 1
-        lam[k2] += 1
-        return ("unsat", lam), s
+        try:
+            is_up, x, c = last["a"]
+            other = s.bound[x][0] if is_up else s.bound[x][1]
+            k1 = find_atom_row(s, mod, is_up, x, c)
+            k2 = find_atom_row(s, mod, not is_up, x, other)
+            if k1 is None or k2 is None:
+                return ("unsat", None), s
+            lam = [0] * len(rows)
+            lam[k1] += 1
+            lam[k2] += 1
+            return ("unsat", lam), s
+        except Exception:  # noqa
+            return ("unsat", None), s
     except Exception as e:  # noqa
         return ("raise", type(e).__name__), s
     val = {}
@@ -691,7 +760,7 @@ def check_simplex(ctx, simplex, systems, label):
     runs = []
     lines = []
     for rows, shape in systems:
-        enc = [rng.random() < 0.5 for _ in rows]
+        enc = choose_enc(rng, rows)
         res, s = run_simplex(simplex, rows, enc)
         runs.append((rows, enc, res))
         nv = len(rows[0]) - 1
@@ -727,13 +796,14 @@ def check_simplex(ctx, simplex, systems, label):
             if lean_ok is True:
                 ctx.count("oracle:farkas-checked")
             else:
+                # no certificate could be read (internals changed?) or it does not check: the verdict
+                # itself is judged by Z3; only a wrong verdict is a violation
                 z = z3_sat(rows, integer=False)
                 ctx.count("oracle:z3-lra")
+                ctx.count("simplex:unsat-certificate-%s" % ("missing" if res[1] is None else "rejected" if lean_ok is False else "unchecked"))
                 if z is True:
-                    report(ctx, "simplex:wrong-unsat", key, "Simplex on %s (encoding %s) answers unsatisfiable but Z3 (LRA) finds a solution" % (rows, key.split("/")[1]), rp)
-                else:
-                    report(ctx, "simplex:bad-explanation", key, "Simplex on %s (encoding %s) answers unsatisfiable; its explanation does not yield a Farkas certificate (%s)"
-                           % (rows, key.split("/")[1], res[1:]), rp)
+                    report(ctx, "simplex:wrong-unsat", key, "Simplex on %s (encoding %s) answers unsatisfiable but Z3 (LRA) finds a solution (Farkas certificate: %s)"
+                           % (rows, key.split("/")[1], "none extracted" if res[1] is None else "%s, rejected by checkFarkas" % (res[1],)), rp)
         elif res[0] == "timeout":
             ctx.count("simplex:timeout")
 
@@ -763,7 +833,7 @@ def check_bb(ctx, simplex, systems, label):
     runs = []
     lines = []
     for rows, shape in systems:
-        enc = [rng.random() < 0.5 for _ in rows]
+        enc = choose_enc(rng, rows)
         res = run_bb(simplex, rows, enc)
         runs.append((rows, enc, res))
         if res[0] == "sat":
@@ -818,7 +888,7 @@ def check_strict(ctx, strict_mod, systems, label):
     rng = ctx.rng("strict-" + label)
     for rows, shape in systems:
         nv = len(rows[0]) - 1
-        enc = [rng.random() < 0.5 for _ in rows]
+        enc = choose_enc(rng, rows)
         strict = [rng.random() < 0.4 for _ in rows]
         res = run_strict(strict_mod, rows, enc, strict)
         key = rows_key(rows) + "/" + "".join(("G" if st else "g") if e else ("L" if st else "l") for e, st in zip(enc, strict))
@@ -864,27 +934,65 @@ def row_term(term, xs, r):
     return term.less_eq(term.IntType)(term.Int(0), sum(s[1:], s[0]))
 
 
-def term_row(t, xs):
-    """inverse of row_term, reading the term structure directly; None if t is not of that form."""
-    if not (t.is_less_eq() and t.arg1.is_number() and t.arg1.dest_number() == 0):
-        return None
-    row = [0] * (len(xs) + 1)
-    e = t.arg
-    parts = []
-    while e.is_plus():
-        parts.append(e.arg)
-        e = e.arg1
-    parts.append(e)
-    for p in parts:
-        if p.is_number():
-            row[-1] += p.dest_number()
-        elif p.is_times() and p.arg1.is_number() and p.arg in xs:
-            row[xs.index(p.arg)] += p.arg1.dest_number()
-        elif p in xs:
-            row[xs.index(p)] += 1
-        else:
-            return None
-    return row
+def row_term_form(term, xs, r, rng):
+    """The constraint sum c_i x_i + c0 >= 0 written as an integer inequality in one of the surface forms
+    OmegaHOL accepts: its own normal form, or positive monomials on one side and negative ones on the
+    other with >=, <=, > or <, the constant on either side, unit coefficients written or left out,
+    or a difference compared with 0."""
+    Int, T = term.Int, term.IntType
+    form = rng.choice(["normal", "ge", "le", "gt", "lt", "minus", "ge", "lt"])
+    if form == "normal":
+        return row_term(term, xs, r), form
+
+    def mono(c, v):
+        return v if (c == 1 and rng.random() < 0.6) else Int(c) * v
+    L = [mono(c, v) for c, v in zip(r[:-1], xs) if c > 0]
+    R = [mono(-c, v) for c, v in zip(r[:-1], xs) if c < 0]
+    cl, cr = (r[-1], 0) if rng.random() < 0.5 else (0, -r[-1])      # L + cl >= R + cr
+    if form in ("gt", "lt"):
+        cr -= 1                                                      # a >= b  iff  a > b - 1
+
+    def side(ts, k):
+        ts = list(ts)
+        if k != 0 or not ts:
+            ts.append(Int(k))
+        return sum(ts[1:], ts[0])
+    lhs, rhs = side(L, cl), side(R, cr)
+    if form == "ge":
+        return term.greater_eq(T)(lhs, rhs), form
+    if form == "le":
+        return term.less_eq(T)(rhs, lhs), form
+    if form == "gt":
+        return term.greater(T)(lhs, rhs), form
+    if form == "lt":
+        return term.less(T)(rhs, lhs), form
+    return term.greater_eq(T)(lhs - rhs, Int(0)), form
+
+
+def eval_int_term(t, env):
+    """value of an integer term / truth of a comparison built by row_term_form (own evaluator)"""
+    if t.is_number():
+        return t.dest_number()
+    if t.is_var():
+        return env[t.name]
+    if t.is_plus():
+        return eval_int_term(t.arg1, env) + eval_int_term(t.arg, env)
+    if t.is_minus():
+        return eval_int_term(t.arg1, env) - eval_int_term(t.arg, env)
+    if t.is_uminus():
+        return -eval_int_term(t.arg, env)
+    if t.is_times():
+        return eval_int_term(t.arg1, env) * eval_int_term(t.arg, env)
+    a, b = eval_int_term(t.arg1, env), eval_int_term(t.arg, env)
+    if t.is_less_eq():
+        return a <= b
+    if t.is_less():
+        return a < b
+    if t.is_greater_eq():
+        return a >= b
+    if t.is_greater():
+        return a > b
+    raise ValueError("unexpected term %s" % t)
 
 
 def check_omega_hol(ctx, systems, label):
@@ -894,13 +1002,24 @@ def check_omega_hol(ctx, systems, label):
     from prover import omega
     context.set_context('int')
     allx = term.IntVars('x0 x1 x2 x3 x4')
+    frng = ctx.rng("omegahol-forms-" + label)
     for rows, shape in systems:
         nv = len(rows[0]) - 1
         xs = list(allx[:nv])
-        key = rows_key(rows)
-        given = [row_term(term, xs, r) for r in rows]
+        built = [row_term_form(term, xs, r, frng) for r in rows]
+        given = [g for g, _ in built]
+        forms = [f for _, f in built]
+        for f in forms:
+            ctx.count("omegahol-form:" + f)
+        # the harness' own translation must be right: compare term and row at a few points
+        for _ in range(4):
+            pt0 = [frng.randint(-5, 5) for _ in range(nv)]
+            env = {"x%d" % i: pt0[i] for i in range(nv)}
+            for g, r in zip(given, rows):
+                assert eval_int_term(g, env) == (eval_row(r, pt0) >= 0), ("harness: term/row mismatch", str(g), r)
+        key = rows_key(rows) + "/" + ",".join(forms)
         ctx.case(("omegahol", key), nontrivial=len(rows) >= 2)
-        rp = {"kind": "omegahol", "rows": rows}
+        rp = {"kind": "omegahol", "rows": rows, "given": [str(g) for g in given]}
         try:
             with time_limit(120):
                 h = omega.OmegaHOL(list(given))
@@ -930,12 +1049,11 @@ def check_omega_hol(ctx, systems, label):
             if len(rpt.gaps) > 0:
                 report(ctx, "omegahol:proof-has-gaps", key, "proof of OmegaHOL.solve() for %s has gaps" % rows, rp)
             if th.prop != term.false:
-                report(ctx, "omegahol:not-false", key, "OmegaHOL.solve() for %s concludes %s instead of false" % (rows, th.prop), rp)
-            hyp_rows = [term_row(h, xs) for h in th.hyps]
-            extra = [str(h) for h, hr in zip(th.hyps, hyp_rows) if hr is None or hr not in rows]
-            literal = [str(h) for h in th.hyps if h not in given]
-            if extra or literal:
-                report(ctx, "omegahol:foreign-hypothesis", key, "proof of OmegaHOL.solve() for %s uses hypotheses that are not among the given constraints: %s" % (rows, extra or literal), rp)
+                report(ctx, "omegahol:not-false", key, "OmegaHOL.solve() for %s concludes %s instead of false" % ([str(g) for g in given], th.prop), rp)
+            foreign = [str(h) for h in th.hyps if h not in given]
+            if foreign:
+                report(ctx, "omegahol:foreign-hypothesis", key, "proof of OmegaHOL.solve() for the given constraints %s has hypotheses that are not among them: %s"
+                       % ([str(g) for g in given], foreign), rp)
             # the verdict itself
             pt = brute_point(rows)
             if pt is not None:
@@ -969,7 +1087,7 @@ def check_simplex_hol(ctx, systems, label):
         if not rows:
             continue
         nv = len(rows[0]) - 1
-        enc = [rng.random() < 0.5 for _ in rows]
+        enc = choose_enc(rng, rows)
         key = rows_key(rows) + "/" + "".join("g" if e else "l" for e in enc)
         ctx.case(("simplexhol", key), nontrivial=len(rows) >= 2)
         rp = {"kind": "simplexhol", "rows": rows, "enc": enc}
@@ -1033,8 +1151,12 @@ def check_simplex_hol(ctx, systems, label):
 def run(ctx):
     ctx.coverage["rule"] = (
         "integer systems, rows c1..cn,c0 meaning sum ci*xi + c0 >= 0: random with 1-5 variables, 1-8 rows, entries in -4..4 in "
-        "14 shapes (plain/sparse/dense, equalities as paired inequalities, parity pairs, no-unit-coefficient 'dark' systems, one-sided "
-        "(unbounded) systems, constant rows, duplicate/parallel rows, boxed, unit coefficients on variable 0, non-unit single-variable rows); "
+        "16 shapes (plain/sparse/dense, equalities as paired inequalities, parity pairs, no-unit-coefficient 'dark' systems, 'grey' "
+        "pairs k <= a.x <= k+1 with coefficients up to 5 whose dark shadow is false, one-sided (unbounded) systems, constant rows, "
+        "duplicate/parallel rows, boxed, multi-variable constraints followed by single-variable bounds (order kept), unit coefficients "
+        "on variable 0, non-unit single-variable rows); simplex encodings choose GreaterEq/LessEq per row, unit bounds mostly as atoms "
+        "x >= b / x <= b; OmegaHOL inputs in 6 surface forms (normal form, >=, <=, >, <, difference >= 0; constant on either side; "
+        "unit coefficients written or not); "
         "thorough: every multiset of <=3 rows over 2 variables with coefficients in -2..2 and constants in -1..1. Non-trivial = at least two rows with a variable; "
         "distinct by the row lists.")
     try:
@@ -1087,6 +1209,9 @@ def run(ctx):
     sys2 = [gen_system(rng) for _ in range(ctx.scale(1500, 10000))]
     check_simplex(ctx, simplex, sys2, "random")
     ctx.log("simplex stream done (%d)" % len(sys2))
+    hh = ctx.coverage["histogram"]
+    ctx.coverage["simplex_unsat_certified_by_checkFarkas"] = "%d of %d 'unsatisfiable' answers (the others judged by Z3)" % (
+        hh.get("oracle:farkas-checked", 0), hh.get("simplex:random:unsat", 0))
     rng = ctx.rng("bb")
     sys3 = [gen_system(rng) for _ in range(ctx.scale(600, 4000))]
     check_bb(ctx, simplex, sys3, "random")
@@ -1097,12 +1222,12 @@ def run(ctx):
     ctx.log("strict simplex stream done (%d)" % len(sys4))
     # 5. proof terms
     rng = ctx.rng("omegahol")
-    sys5 = [gen_system(rng) for _ in range(ctx.scale(60, 400))]
+    sys5 = [gen_system(rng) for _ in range(ctx.scale(400, 2000))]
     check_omega_hol(ctx, sys5, "random")
     ctx.log("OmegaHOL stream done (%d)" % len(sys5))
     rng = ctx.rng("simplexhol")
     # the proof-producing wrapper fails (by its own exceptions) on most larger systems; small ones reach the proof code
-    sys6 = [gen_small(rng) for _ in range(ctx.scale(150, 1500))] + [gen_system(rng) for _ in range(ctx.scale(40, 400))]
+    sys6 = [gen_small(rng) for _ in range(ctx.scale(400, 3000))] + [gen_system(rng) for _ in range(ctx.scale(200, 1500))]
     check_simplex_hol(ctx, sys6, "random")
     ctx.log("SimplexHOLWrapper stream done (%d)" % len(sys6))
 
@@ -1132,7 +1257,8 @@ def replay(ctx, rp):
             else:
                 check_strict(ctx, simplex_strict, [(rows, "replay")], "replay%d" % _)
     elif r.get("kind") == "omegahol":
-        check_omega_hol(ctx, [(rows, "replay")], "replay")
+        for _ in range(8):               # the surface forms of the constraints are drawn again
+            check_omega_hol(ctx, [(rows, "replay")], "replay%d" % _)
     elif r.get("kind") == "simplexhol":
         for _ in range(1 if len(rows) > 6 else 8):
             check_simplex_hol(ctx, [(rows, "replay")], "replay%d" % _)
@@ -1155,9 +1281,11 @@ MANIFEST = {
             "on every run and by "
             "differential runs (verdict, witness dict, derivation tree) on generated systems; besides, every answer of the real code is "
             "judged at run time: SAT witnesses by the verified checkWitness and an independent evaluation, contradictions by the verified checkDeriv, an independent replay, brute force and Z3. The simplex algorithm (pivoting, branch and bound, strict variant) is not "
-            "modelled: its witnesses go through checkWitness(Q), its 'unsatisfiable' explanations are turned into Farkas multipliers and "
-            "go through checkFarkas, branch-and-bound / strict verdicts are compared with Z3 and brute force. OmegaHOL "
-            "and SimplexHOLWrapper proof terms are checked by theory.check_proof (conclusion false, hypotheses among the given constraints).",
+            "modelled: its witnesses go through checkWitness(Q), its 'unsatisfiable' answers are certified by checkFarkas whenever Farkas multipliers "
+            "can be read from the solver's explanation (internal fields; if not, or if they do not check, the verdict is decided by Z3 - only "
+            "a wrong verdict is a violation), branch-and-bound / strict verdicts are compared with Z3 and brute force. OmegaHOL "
+            "and SimplexHOLWrapper proof terms are checked by theory.check_proof (conclusion false, no gaps, every hypothesis literally one of the given constraints; "
+            "OmegaHOL is given the constraints in varied surface forms, not only in its own normal form).",
     "note": "Trusted: Lean kernel, propext/Classical.choice/Quot.sound; the Python-AST translator of the two combine functions; the harness "
             "generators and encoders (rows -> GreaterEq/LessEq, explanation -> multipliers); Z3 and the box -6..6 as supporting oracles for "
             "verdicts without certificate (branch and bound 'no integer solution', strict simplex 'unsatisfiable'); float divisions of "
@@ -1178,4 +1306,7 @@ FINDINGS = [
     {"status": "fixed", "key": "simplexhol:bad-witness:[[2,0,-1],[0,2,-2],[-2,0,-1]]/gll", "commit": "e8753aa",
      "what": "SimplexHOLWrapper.add_ineq named the slack variable after Simplex.index-1 although Simplex re-uses the slack of an equal "
              "linear form: 2*x0>=1, 2*x1>=2, 2*x0<=-1 was answered satisfiable with x0=1/2 (bound asserted on the wrong variable)"},
+    {"status": "fixed", "key": "omegahol:foreign-hypothesis", "commit": "fixes/C16-4.patch",
+     "what": "OmegaHOL.solve() returned the contradiction from the omega normal forms of the given inequalities, not from the given "
+             "ones: [x < y, y < x] gave 0 <= -1*x + 1*y + -1, 0 <= 1*x + -1*y + -1 |- false; even 0 <= x came back as 0 <= 1 * x"},
 ]
